@@ -278,6 +278,102 @@ func c08Agree(res string, err error, model string) (bool, bool) { // (agree, com
 	return false, true
 }
 
+// Reference evaluation of a numeric-domain formula by precedence climbing over the token list (Excel's
+// table: prefix minus, %, ^, * /, + -; binary operators associate to the left; a blank cell counts 0).
+// Written independently of the evaluator's two-stack machine and of the Coq model.  ok=false: outside the
+// domain the reference speaks about (text, booleans, 0^0, negative base).
+type c08ref struct {
+	toks []string
+	pos  int
+	div0 bool
+	ok   bool
+}
+
+func (r *c08ref) peek() string {
+	if r.pos < len(r.toks) {
+		return r.toks[r.pos]
+	}
+	return ""
+}
+
+func (r *c08ref) primary() float64 {
+	t := r.peek()
+	r.pos++
+	switch {
+	case t == "pre":
+		return -r.primary()
+	case t == "(":
+		v := r.expr(0)
+		if r.peek() != ")" {
+			r.ok = false
+		}
+		r.pos++
+		return r.postfix(v)
+	case t == "s":
+		return r.postfix(0)
+	case strings.HasPrefix(t, "n"):
+		b, err := strconv.ParseUint(t[1:], 16, 64)
+		if err != nil {
+			r.ok = false
+		}
+		return r.postfix(math.Float64frombits(b))
+	}
+	r.ok = false
+	return 0
+}
+
+func (r *c08ref) postfix(v float64) float64 {
+	for r.peek() == "%" {
+		r.pos++
+		v /= 100
+	}
+	return v
+}
+
+func (r *c08ref) expr(minPrec int) float64 {
+	lhs := r.primary()
+	for r.ok {
+		t := r.peek()
+		prec, known := map[string]int{"o^": 3, "o*": 2, "o/": 2, "o+": 1, "o-": 1}[t]
+		if !known || prec < minPrec {
+			if t != "" && t != ")" && !known {
+				r.ok = false
+			}
+			break
+		}
+		r.pos++
+		rhs := r.expr(prec + 1)
+		switch t {
+		case "o+":
+			lhs += rhs
+		case "o-":
+			lhs -= rhs
+		case "o*":
+			lhs *= rhs
+		case "o/":
+			if rhs == 0 {
+				r.div0 = true
+			}
+			lhs /= rhs
+		case "o^":
+			if (lhs == 0 && rhs <= 0) || (lhs < 0 && rhs != math.Trunc(rhs)) {
+				r.ok = false
+			}
+			lhs = math.Pow(lhs, rhs)
+		}
+	}
+	return lhs
+}
+
+func c08Reference(toks []string) (val float64, div0, ok bool) {
+	r := &c08ref{toks: toks, ok: true}
+	v := r.expr(0)
+	if r.pos != len(toks) || math.IsNaN(v) || (math.IsInf(v, 0) && !r.div0) {
+		r.ok = false
+	}
+	return v, r.div0, r.ok
+}
+
 func (c *Ctx) c08Operators(n int, numeric bool) {
 	type pend struct {
 		formula  string
@@ -303,6 +399,32 @@ func (c *Ctx) c08Operators(n int, numeric bool) {
 				f.SetCellFormula("Sheet1", "Z1", formula)
 				p.res, p.err = f.CalcCellValue("Sheet1", "Z1", excelize.Options{RawCellValue: true})
 			})
+			if numeric {
+				hasOp := false
+				for _, t := range toks {
+					if t == "pre" || t == "%" || strings.HasPrefix(t, "o") {
+						hasOp = true
+					}
+				}
+				// a bare (parenthesised) reference to a blank cell stays blank: only operator applications are judged
+				if want, div0, ok := c08Reference(toks); ok && hasOp {
+					c.R.Dist["reference-evaluated"]++
+					good := false
+					if div0 {
+						good = errClass(p.res, p.err) == "#DIV/0!"
+					} else if y, perr := strconv.ParseFloat(p.res, 64); perr == nil && p.err == nil {
+						good = want == y || math.Abs(want-y) <= 1e-12*math.Max(math.Abs(want), math.Abs(y))
+					}
+					if !good {
+						wtxt := strconv.FormatFloat(want, 'g', -1, 64)
+						if div0 {
+							wtxt = "#DIV/0!"
+						}
+						c.Fail("oracle", "C08_excel_semantics", map[string]interface{}{"formula": formula, "cells": env.cells},
+							fmt.Sprintf("formula %q evaluates to %q (err %v); under Excel's precedence and left-to-right rules it is %s", formula, p.res, p.err, wtxt), "")
+					}
+				}
+			}
 			ps = append(ps, p)
 			reqs = append(reqs, "c08.eval "+strings.Join(toks, " "))
 		}
@@ -462,6 +584,7 @@ func (c *Ctx) c08KnownProbes() {
 		{"c08-text-compare-case", "\"a\"=\"A\"", "TRUE"},
 		{"c08-bool-ordering", "TRUE>\"z\"", "TRUE"},
 		{"c08-neg-text", "-\"abc\"", "#VALUE!"},
+		{"c08-negative-zero-text", "(0*-1)&\"\"", "0"},
 	} {
 		f.SetCellFormula("Sheet1", "Z1", tc.formula)
 		res, err := f.CalcCellValue("Sheet1", "Z1")
